@@ -116,7 +116,23 @@ func (e *Engine) lenOf(x Value, g *Term, pos token.Pos) Value {
 		return v.len
 	case StringV:
 		if v.hasAtom() {
-			return Poison{why: "len of opaque symbolic string"}
+			var r *Term
+			for i := len(v.alts) - 1; i >= 0; i-- {
+				al := v.alts[i]
+				l := BV(64, uint64(len(al.s)))
+				if al.atom != nil {
+					if al.alen == nil {
+						return Poison{why: "len of opaque symbolic string"}
+					}
+					l = al.alen
+				}
+				if r == nil {
+					r = l
+				} else {
+					r = Ite(al.c, l, r)
+				}
+			}
+			return r
 		}
 		var r *Term
 		for i := len(v.alts) - 1; i >= 0; i-- {
